@@ -6,7 +6,8 @@ import ast
 import itertools
 
 from ..index import AnalysisError, find_nodes
-from ..values import Obj, Raised
+from ..poly import Rat
+from ..values import Obj, Raised, to_rat
 
 LEVEL = "other"
 EXPLANATION = (
@@ -121,8 +122,76 @@ def run(ctx):
         "intersects on all three axes => True",
     )
     # symmetric call: d.check_overlap(obj) must also detect obj containing d etc. (covered: all order types)
+    _reapply_behaviour(ctx)
     _call_sites(ctx)
     ctx.rule_text = "R29.1 enumerates every combination of per-axis weak-order types of the four slice endpoints (exhaustive over all integer inputs because the function only compares them); R29.2 are syntax-tree/ordering rules on the two call sites"
+
+
+def _reapply_behaviour(ctx):
+    """apply_params interpreted end to end on a scene with two devices and three other objects (one overlapping only
+    the first device, one only the second, one neither): each object that overlaps some device is re-applied exactly
+    once, with every material-state argument equal to the array the function returns (i.e. after all devices wrote),
+    and the object that overlaps no device is left alone."""
+    from ..harness import stub_repo_calls
+    from ..ndarr import NdArr
+    from ..values import Builtin
+    from . import c18
+
+    ix = ctx.index
+    f = ix.function("fdtdx.fdtd.initialization.apply_params")
+    for with_c4 in (True, False):
+        s = c18.Scn(ctx, 1, disp=(2, 1, 1, with_c4))
+        it, sc = s.it, s.sc
+        it.ext_overrides["jax.lax.stop_gradient"] = lambda it_, a, k: a[0]
+        it.ext_overrides["jax.random.split"] = lambda it_, a, k: (Rat.atom(("key", to_rat(a[0]).fmt(), 0)), Rat.atom(("key", to_rat(a[0]).fmt(), 1)))
+        mats = c18._mats(it, 1)
+        overlap = {("D1", "srcA"): True, ("D2", "srcB"): True}  # everything else: no overlap
+        applied = {}
+
+        def mk_apply(name):
+            def ap(it_, a, k, _n=name):
+                applied.setdefault(_n, []).append(dict(k))
+                return objs_by_name[_n]
+
+            return Builtin("apply", ap)
+
+        devices = []
+        for dn in ("D1", "D2"):
+            d = s.device(dn, "continuous", False, mats)
+            d.attrs["check_overlap"] = Builtin("check_overlap", lambda it_, a, k, _d=dn: overlap.get((_d, a[0].attrs["name"]), False))
+            d.attrs["apply"] = mk_apply(dn)
+            devices.append(d)
+        S = ix.cls("fdtdx.objects.object.SimulationObject")
+        others = [Obj(S, dict(name=n, apply=mk_apply(n)), n) for n in ("srcA", "srcB", "srcC")]
+        objs = sc.objects(devices + others)
+        vol = objs.attrs["object_list"][0]
+        vol.attrs["apply"] = mk_apply(vol.attrs.get("name", "volume"))
+        objs_by_name = {o.attrs.get("name", "volume"): o for o in objs.attrs["object_list"]}
+        poles, comps, ccomps, _ = s.disp
+        from ..scene import SP
+
+        mkd = lambda nm, c: NdArr((poles, c), [Rat.atom(("at", f"{nm}_{p}_{q}", (0, 0, 0), (0, 1, 2))) for p in range(poles) for q in range(c)], SP)
+        arrays = sc.arrays(eps_comps=1, mu_comps=0, sigma_e=1, dispersive_c1=mkd("d1", comps), dispersive_c2=mkd("d2", comps), dispersive_c3=mkd("d3", ccomps), dispersive_c4=mkd("d4", ccomps) if with_c4 else None)
+        params = {d.attrs["name"]: Rat.atom(f"p_{d.attrs['name']}") for d in devices}
+        try:
+            res = it.call(it.closure_of(f), [arrays, objs, params], {})
+        except Raised as r:
+            raise AnalysisError(f"apply_params raises on the two-device scene: {r}")
+        out = res[0] if isinstance(res, tuple) else res
+        label = f"apply_params[two devices{', c4 allocated' if with_c4 else ''}]"
+        who = {n: len(v) for n, v in applied.items()}
+        ctx.ob("R29.3", f"{label}:who-is-re-applied", who == {"srcA": 1, "srcB": 1}, "exactly the objects that overlap some device — the first device as well as the last — are re-applied, once each; an object overlapping none is left as place_objects set it up", who, {"srcA": 1, "srcB": 1})
+        state_args = {"inv_permittivities": "inv_permittivities", "inv_permeabilities": "inv_permeabilities", "dispersive_c1": "dispersive_c1", "dispersive_c2": "dispersive_c2", "dispersive_c3": "dispersive_c3", "dispersive_c4": "dispersive_c4", "electric_conductivity": "electric_conductivity"}
+        bad = []
+        for n in ("srcA", "srcB"):
+            for kw in applied.get(n, [])[:1]:
+                for arg, field in state_args.items():
+                    want = out.attrs.get(field)
+                    got = kw.get(arg, "absent")
+                    same = (got is None and want is None) or (isinstance(got, NdArr) and isinstance(want, NdArr) and got.shape == want.shape and all(to_rat(x).equals(to_rat(y)) for x, y in zip(got.data, want.data))) or (not isinstance(got, (NdArr, str)) and got is not None and want is not None and not isinstance(want, NdArr) and to_rat(got).equals(to_rat(want)))
+                    if not same:
+                        bad.append((n, arg, "absent" if isinstance(got, str) else ("None" if got is None else "differs from the returned array")))
+        ctx.ob("R29.3", f"{label}:post-device-state", not bad and len(applied.get("srcA", [])) == 1, "every material-state argument handed to the re-applied objects (inverse permittivity / permeability, the dispersive coefficient arrays c1..c4, the conductivity) is the array apply_params returns, i.e. the state after both devices wrote their materials", bad[:4], "arguments == returned arrays")
 
 
 def _call_sites(ctx):
